@@ -11,7 +11,8 @@ import (
 
 // reserved holds, lower-cased and with '_' removed, every word a generated identifier must not
 // collide with after any of the generators' case conversions: target-language keywords and
-// symbols of the runtimes / emitted scaffolding.
+// symbols of the runtimes / emitted scaffolding, modules of the Python standard library that the
+// interpreter, unittest or the harness driver import (a packet JSON becomes json.py on the module path).
 var reserved = map[string]bool{}
 
 func init() {
@@ -23,7 +24,8 @@ and def del elif except exec from global is lambda nonlocal not or pass print ra
 alignas alignof asm auto bitand bitor bool compl concept constexpr consteval constinit delete explicit export friend inline mutable namespace noexcept nullptr operator register requires signed sizeof template typedef typeid typename unsigned using wchar
 end function local nil repeat then until
 buf buffer bytebuf bytes size len i val err p service cs checktype other original decoded msg codec t obj instance string list vec some option result fields tree subtree offset pinfo base proto field packet root options metadata
-encode decode equals tostring hashcode getclass init eq std string vector object main test tests data key value name type id ok error errors fmt binary count index item items idx get set put add remove create register`
+encode decode equals tostring hashcode getclass init eq std string vector object main test tests data key value name type id ok error errors fmt binary count index item items idx get set put add remove create register
+json http uuid time site`
 	for _, w := range strings.Fields(words) {
 		reserved[w] = true
 	}
